@@ -26,7 +26,8 @@ from beartype.roar import BeartypeDoorInferHintRecursionWarning   # noqa: E402
 
 RULE = ('seeded object generator: scalars, nested builtin and collections containers (empty / homogeneous / '
         'heterogeneous / long), dictionary views, ranges, bytes-likes, user-defined Sequence / Mapping / Set / '
-        'bare-__iter__ classes, enum members, dataclass and namedtuple instances, callables, modules, and '
+        'bare-__iter__ classes, duck-typed classes defining arbitrary subsets of the protocol methods collections.abc '
+        'recognises (incl. the full method sets of nominal ABCs), enum members, dataclass and namedtuple instances, callables, modules, and '
         'self-referential containers; h = infer_hint(x) (default configuration, and O1 where the container is '
         'homogeneous), then is_bearable(x, h) under every draw of the sweep; failing objects are minimised to the '
         'smallest failing sub-object and keyed by (kind of that object, head of its inferred hint); distinct by '
